@@ -177,8 +177,18 @@ func (c *mctx) matchOracle(name string) []string {
 	return oracle
 }
 
+// every third mapper is the zero value a library user may start from (no logger set), every third one logs at debug level
+var mapperSerial int
+
 func newMapper(cache string, size int) *mapper.MetricMapper {
-	m := &mapper.MetricMapper{Logger: promslog.NewNopLogger()}
+	m := &mapper.MetricMapper{}
+	switch mapperSerial % 3 {
+	case 1:
+		m.Logger = promslog.NewNopLogger()
+	case 2:
+		m.Logger = debugLogger
+	}
+	mapperSerial++
 	switch cache {
 	case "lru":
 		c, _ := lru.NewMetricMapperLRUCache(nil, size)
